@@ -254,7 +254,8 @@ def r07_6(run):
             run.ob("R07.6", loc(fi, c), fi.short, "grad nulling precedes the registration of the new consumer", ok,
                    "the nulling loop dominates `_ops.add`" if ok else "consumer registered before the stale gradient is dropped")
     if not done:
-        raise AnalysisError(f"{fi.short}: loop that nulls the inputs' gradients not found")
+        run.ob("R07.6", loc(fi, fi.node), fi.short, "non-view op nulls the gradients of its tensor inputs", False,
+               "no loop over the inputs sets _grad/_view_grad to None (or calls null_grad): a leaf keeps a stale gradient when it is re-used")
     # (b) collect_all...: nulls before any return
     fc = anchor_func(run, COLLECT)
     cfg = build_cfg(run, fc)
